@@ -401,9 +401,9 @@ def _main(check, tier, seed):
     base = dict(MaxCalls=1, ToggleAnytime='FALSE', RegisterAnytime='FALSE', RecHist='FALSE', Mutant='""')
     # 1. model checking at the finest grain (cache steps separate)
     fine = {'quick': [dict(NProcs=2, PoolSize=9, PoolFrom=1, MaxCache=1, MaxToggles=1, MaxRegs=0, Gates='{"yield","p","t"}'),
-                      dict(NProcs=2, PoolSize=18, PoolFrom=13, MaxCache=1, MaxToggles=0, MaxRegs=0, Gates='{"yield","p","t"}')],
+                      dict(NProcs=2, PoolSize=23, PoolFrom=13, MaxCache=1, MaxToggles=0, MaxRegs=0, Gates='{"yield","p","t"}')],
             'thorough': [dict(NProcs=2, PoolSize=12, PoolFrom=1, MaxCache=1, MaxToggles=1, MaxRegs=0, Gates='{"yield","p","t"}'),
-                         dict(NProcs=2, PoolSize=27, PoolFrom=4, MaxCache=1, MaxToggles=0, MaxRegs=1, Gates='{"yield","p","t"}'),
+                         dict(NProcs=2, PoolSize=32, PoolFrom=4, MaxCache=1, MaxToggles=0, MaxRegs=1, Gates='{"yield","p","t"}'),
                          dict(NProcs=3, PoolSize=3, PoolFrom=3, MaxCache=0, MaxToggles=0, MaxRegs=0, Gates='{"yield","p","t"}'),
                          dict(NProcs=2, PoolSize=2, PoolFrom=10, MaxCache=0, MaxToggles=1, MaxRegs=0, Gates='{"yield","p","t"}')]}[tier]
     # (a separate interpreter, so that this one stays single-threaded for the forks below)
@@ -425,6 +425,8 @@ def _main(check, tier, seed):
                                                                           MaxRegs=0, Gates='{"yield"}'))
         pool = pool + replay_config(check, 'yield-2-ref-check', dict(NProcs=2, PoolSize=6, PoolFrom=25, MaxCache=1, MaxToggles=0,
                                                                      MaxRegs=0, Gates='{"yield"}'))
+        pool = pool + replay_config(check, 'yield-2-classes-vars', dict(NProcs=2, PoolSize=5, PoolFrom=31, MaxCache=1, MaxToggles=0,
+                                                                        MaxRegs=0, Gates='{"yield"}'))
     else:
         pool = replay_config(check, 'yield-2', dict(NProcs=2, PoolSize=9, PoolFrom=1, MaxCache=1, MaxToggles=1, MaxRegs=0, Gates='{"yield"}'))
         pool = pool + replay_config(check, 'yield-2-args-glommer', dict(NProcs=2, PoolSize=6, PoolFrom=13, MaxCache=1, MaxToggles=0,
@@ -433,6 +435,8 @@ def _main(check, tier, seed):
                                                                           MaxRegs=0, Gates='{"yield"}'))
         pool = pool + replay_config(check, 'yield-2-ref-check', dict(NProcs=2, PoolSize=6, PoolFrom=25, MaxCache=1, MaxToggles=0,
                                                                      MaxRegs=0, Gates='{"yield"}'))
+        pool = pool + replay_config(check, 'yield-2-classes-vars', dict(NProcs=2, PoolSize=5, PoolFrom=31, MaxCache=1, MaxToggles=0,
+                                                                        MaxRegs=0, Gates='{"yield"}'))
         replay_config(check, 'yield-2-registry', dict(NProcs=2, PoolSize=2, PoolFrom=4, MaxCache=1, MaxToggles=0, MaxRegs=1, Gates='{"yield"}'))
         replay_config(check, 'yield-3', dict(NProcs=3, PoolSize=4, PoolFrom=3, MaxCache=1, MaxToggles=0, MaxRegs=0, Gates='{"yield"}'))
     replay_config(check, 'pathcache-steps', dict(NProcs=2, PoolSize=2, PoolFrom=10, MaxCache=0, MaxToggles=1, MaxRegs=0,
